@@ -1,8 +1,10 @@
 CONSTANTS
   Good <- MCGood3
-  Bad = {}
+  Bad <- MCBad3
   MaxOps = 6
+  WithGet = FALSE
 INIT Init
 NEXT Next
 INVARIANTS BatchEq Idempotent NamesUnique Export
+PROPERTIES NoTrace
 CHECK_DEADLOCK FALSE
